@@ -727,6 +727,26 @@ func (ex *Exec) applyContract(st *State, c *Contract, fn *types.Func, recv *Val,
 	if len(results) == 0 && fn != nil {
 		results = ex.freshResults(fn, nil, fn.Name())
 	}
+	if c.Function {
+		// a deterministic function of its scalar arguments: results are applications of
+		// an uninterpreted function, so equal arguments give equal results
+		ex.assumption(c.Func + " is treated as a deterministic function of its arguments")
+		var sorts, terms []string
+		for _, a := range args {
+			if a != nil && a.Sh != nil && a.Sh.IsLeaf() {
+				sorts = append(sorts, a.Sh.Leaf)
+				terms = append(terms, a.S)
+			}
+		}
+		for i, r := range results {
+			if r.Sh == nil || !r.Sh.IsLeaf() || len(sorts) == 0 {
+				continue
+			}
+			fname := "fn_" + smtName(c.Func) + fmt.Sprintf("_r%d", i)
+			ex.eng.smt.declFun(fname, "(declare-fun "+fname+" ("+strings.Join(sorts, " ")+") "+r.Sh.Leaf+")")
+			results[i] = &Val{Sh: r.Sh, T: r.T, S: "(" + fname + " " + strings.Join(terms, " ") + ")"}
+		}
+	}
 	bindResults(sc, fn, results)
 	// ghost effects of the callee
 	for _, cl := range c.Clauses {
@@ -738,14 +758,23 @@ func (ex *Exec) applyContract(st *State, c *Contract, fn *types.Func, recv *Val,
 			ex.havocSpecLval(st, strings.TrimSpace(item), sc)
 		}
 	}
-	// re-evaluate lets that are not under old() in the post state? lets are entry-state values.
+	// `domain` clauses restrict the inputs the contract speaks about: they are not
+	// obligations of the caller; outside the domain nothing is promised.
+	dom := "true"
+	for _, cl := range c.Clauses {
+		if cl.Kind == "domain" && cl.Expr != nil {
+			ex.curClause = c.Func + ": domain " + cl.Text
+			dom = and(dom, ex.eval(pre, cl.Expr, sc).S)
+		}
+	}
+	dom = ex.def("dom", "Bool", dom)
 	for _, cl := range c.Clauses {
 		if (cl.Kind != "ensures" && cl.Kind != "ghostupdate") || cl.Expr == nil || cl.Finding != "" {
 			continue
 		}
 		ex.curClause = c.Func + ": ensures " + cl.Text
 		g := ex.eval(st, cl.Expr, sc)
-		st.assume(g.S)
+		st.assume(implies(dom, g.S))
 	}
 	return results
 }
@@ -1128,6 +1157,10 @@ func (ex *Exec) specForm(st *State, name string, call *ast.CallExpr, sc *SpecCtx
 		// the object was allocated during the call (it did not exist in the caller's entry state)
 		v := ex.eval(st, call.Args[0], sc)
 		return one(ex.boolVal("(> " + v.S + " " + ex.eng.alloc0() + ")"))
+	case "atoi":
+		// numeric value of a string of decimal digits, -1 otherwise (SMT-LIB str.to_int)
+		v := ex.eval(st, call.Args[0], sc)
+		return one(&Val{Sh: leafShape(types.Typ[types.UntypedInt], "Int"), T: types.Typ[types.UntypedInt], S: "(str.to_int " + v.S + ")"})
 	case "clockNow":
 		c := ex.eval(st, call.Args[0], sc)
 		return one(ex.clockNow(st, c, nil, sc))
